@@ -227,7 +227,8 @@ C06_UniqueIds == \A a \in Agents : \A i, j \in 1..Len(cur[a].pairs) : i # j => c
 C06_NoDupPairs == \A a \in Agents : \A i, j \in 1..Len(cur[a].pairs) : i # j =>
                       <<cur[a].pairs[i].l, cur[a].pairs[i].r>> # <<cur[a].pairs[j].l, cur[a].pairs[j].r>>
 C06_PairsFromCurrent == \A a \in Agents : \A p \in Rng(cur[a].pairs) : p.l \in Rng(cur[a].locals) /\ Known(cur, a, p.r)
-C06_SelListed == \A a \in Agents : cur[a].sel # 0 => \E p \in Rng(cur[a].pairs) : p.id = cur[a].sel
+\* "the selected pair is one of the listed pairs": by id, and it is the listed entry itself (not a superseded copy that kept the id)
+C06_SelListed == \A a \in Agents : cur[a].sel # 0 => (cur[a].selListed /\ \E p \in Rng(cur[a].pairs) : p.id = cur[a].sel)
 C06_IdStable == \A a \in Agents : \A x, y \in idmap[a] : (x[1] = y[1] /\ x[2] = y[2]) => x = y
 C06_RemotesDeduped == \A a \in Agents : \A i, j \in 1..Len(cur[a].remotes) : i # j => cur[a].remotes[i].addr # cur[a].remotes[j].addr
 Empty(o, a) == o[a].pairs = <<>> /\ o[a].locals = <<>> /\ o[a].remotes = <<>> /\ o[a].pend = <<>> /\ o[a].sel = 0
@@ -317,13 +318,18 @@ ValidPairs(o, a) == {p \in Rng(o[a].pairs) : p.st = "S"}
 BestValidSet(o, a) == {p \in ValidPairs(o, a) : \A qq \in ValidPairs(o, a) : ~PrLess(p.pr, qq.pr)}
 WriteTargets(o, a) == IF o[a].sel # 0 THEN {PairOf(o, a, o[a].sel)} ELSE BestValidSet(o, a)
 \* data leaves through the selected pair (before selection: a best validated pair; none: the write fails), unmodified, once
+WriteRefused == ev.err # "" /\ ev.n = 0 /\ NewData = {}
+WriteRouted == /\ ev.err = "" /\ ev.n = ev.len
+               /\ Cardinality(NewData) = 1 /\ Len(cur.dnet) = Len(pre.dnet) + 1
+               /\ \A x \in NewData : /\ x.pid = ev.pid /\ x.len = ev.len /\ x.intact /\ x.from = ev.ag
+                                       /\ \E p \in WriteTargets(pre, ev.ag) : x.src = NatMap[p.l] /\ x.dst = p.r
 C07_WriteRoute ==
-  (ev.ev = "Write" /\ ~ev.stun) =>
-     IF WriteTargets(pre, ev.ag) = {} THEN ev.err # "" /\ ev.n = 0 /\ NewData = {}
-     ELSE /\ ev.err = "" /\ ev.n = ev.len
-          /\ Cardinality(NewData) = 1 /\ Len(cur.dnet) = Len(pre.dnet) + 1
-          /\ \A x \in NewData : /\ x.pid = ev.pid /\ x.len = ev.len /\ x.intact /\ x.from = ev.ag
-                                  /\ \E p \in WriteTargets(pre, ev.ag) : x.src = NatMap[p.l] /\ x.dst = p.r
+  (ev.ev = "Write" /\ ~ev.stun /\ ~ev.cookie) => IF WriteTargets(pre, ev.ag) = {} THEN WriteRefused ELSE WriteRouted
+\* a payload that is no STUN message by its first byte but carries the magic cookie at offset 4: whether it "parses as STUN" is the
+\* library's call, but writer and reader must make the same call - it is either refused, or sent like any other payload (and then
+\* C07_ReadOnlyKnown demands that the peer's reader gets it)
+C07_StunShapedConsistent ==
+  (ev.ev = "Write" /\ ev.cookie) => (WriteRefused \/ (WriteTargets(pre, ev.ag) # {} /\ WriteRouted))
 C07_NoSTUNWrite == (ev.ev = "Write" /\ ev.stun) => (ev.err # "" /\ ev.n = 0 /\ NewData = {} /\ Emitted = {})
 \* the reader gets exactly the non-STUN datagrams delivered from the address of a known remote candidate, once, unmodified
 DataRcv == OwnerOfDst(ev.d.dst)
@@ -390,13 +396,14 @@ P(n) == CASE n = "C01_Mirror" -> C01_Mirror []
         n = "C20_ValueOnWire" -> C20_ValueOnWire []
         n = "C20_OnlyControllingEnabled" -> C20_OnlyControllingEnabled []
         n = "C07_WriteRoute" -> C07_WriteRoute []
+        n = "C07_StunShapedConsistent" -> C07_StunShapedConsistent []
         n = "C07_NoSTUNWrite" -> C07_NoSTUNWrite []
         n = "C07_ReadOnlyKnown" -> C07_ReadOnlyKnown []
         n = "C07_DataInert" -> C07_DataInert []
         n = "C07_ConnCounters" -> C07_ConnCounters []
         n = "C07_PairCounters" -> C07_PairCounters
 Report == \A n \in Check : P(n) \/ PrintT(<<"VIOL", n, l - 1>>)
-AllPredicates == {"C01_Mirror", "C01_Converges", "C01_NeverWithoutPath", "C02_BadRequestInert", "C02_BadResponseInert", "C02_ErrorInert", "C02_IndicationOnlyLiveness", "C02_UnmatchedResponse", "C02_MatchedOnly", "C02_StaleResponseInert", "C03_SelValidated", "C03_LiteSelectsOnNomination", "C03_NoUCFromControlled", "C03_LiteNeverRequests", "C03_NoDowngrade", "C05_Rule", "C05_OppositeAtEnd", "C06_UniqueIds", "C06_NoDupPairs", "C06_PairsFromCurrent", "C06_SelListed", "C06_IdStable", "C06_RemotesDeduped", "C06_NoResidue", "C06_NoResidueNew", "C06_SupersessionPreserves", "C04_TimingRule", "C04_CheckingDeadline", "C04_LifecycleStrict", "C04_Lifecycle", "C04_FC04Seen", "C04_NotifiedIsActual", "C04_SelWhileConnected", "C04_ReleasedOnFailed", "C20_AcceptMonotone", "C20_StaleIgnored", "C20_SwitchOnValid", "C20_SwitchWhenValidated", "C20_ControllingKeepsNewest", "C20_QuiescentAgreement", "C20_ValueOnWire", "C20_OnlyControllingEnabled", "C07_WriteRoute", "C07_NoSTUNWrite", "C07_ReadOnlyKnown", "C07_DataInert", "C07_ConnCounters", "C07_PairCounters"}
+AllPredicates == {"C01_Mirror", "C01_Converges", "C01_NeverWithoutPath", "C02_BadRequestInert", "C02_BadResponseInert", "C02_ErrorInert", "C02_IndicationOnlyLiveness", "C02_UnmatchedResponse", "C02_MatchedOnly", "C02_StaleResponseInert", "C03_SelValidated", "C03_LiteSelectsOnNomination", "C03_NoUCFromControlled", "C03_LiteNeverRequests", "C03_NoDowngrade", "C05_Rule", "C05_OppositeAtEnd", "C06_UniqueIds", "C06_NoDupPairs", "C06_PairsFromCurrent", "C06_SelListed", "C06_IdStable", "C06_RemotesDeduped", "C06_NoResidue", "C06_NoResidueNew", "C06_SupersessionPreserves", "C04_TimingRule", "C04_CheckingDeadline", "C04_LifecycleStrict", "C04_Lifecycle", "C04_FC04Seen", "C04_NotifiedIsActual", "C04_SelWhileConnected", "C04_ReleasedOnFailed", "C20_AcceptMonotone", "C20_StaleIgnored", "C20_SwitchOnValid", "C20_SwitchWhenValidated", "C20_ControllingKeepsNewest", "C20_QuiescentAgreement", "C20_ValueOnWire", "C20_OnlyControllingEnabled", "C07_WriteRoute", "C07_StunShapedConsistent", "C07_NoSTUNWrite", "C07_ReadOnlyKnown", "C07_DataInert", "C07_ConnCounters", "C07_PairCounters"}
 Done == IF TLCGet("stats").diameter = Len(Tr) THEN TRUE
         ELSE Print(<<"MONITOR_STOPPED_AT", TLCGet("stats").diameter, Len(Tr)>>, FALSE)
 ====
